@@ -1,9 +1,11 @@
 """C05 — AABB tree answers overlap queries exactly, for every insertion history."""
+from . import scopes
 from ..core.report import DOMAIN_D
 from ..rules import aabbtree
 
 
 def run(idx, rep, tier):
+    rep.set_scope(scopes.scope(idx, "C05"))
     rep.explanation = (
         "Static rules over distance3d/aabb_tree.py (ast only, nothing executed): the closed-interval predicate "
         "(R-CLOSED), completeness of both stack traversals (R-TRAVERSE), link/parent consistency and box refit of "
